@@ -80,7 +80,7 @@ type Explorer struct {
 
 func NewExplorer(prog *ssa.Program, entry *ssa.Function) *Explorer {
 	ex := &Explorer{Prog: prog, Entry: entry, Workers: 8, SolverBin: "z3", TimeoutMS: 30000,
-		MaxBlockVisits: 100000, MaxSteps: 200e6, MaxDecisions: 2000, MaxConcretize: 64, MaxAlloc: 1 << 20,
+		MaxBlockVisits: 3000000, MaxSteps: 2000e6, MaxDecisions: 2000, MaxConcretize: 64, MaxAlloc: 1 << 20,
 		MaxPaths: 2000000, WitnessMax: 24, WitnessStride: 7,
 		Reached: map[string]int{}, ReachModels: map[string]*Violation{}, Notes: map[string]int{},
 		ExpectFail: map[string]bool{}, ExpectSeen: map[string]bool{}, FuncsSeen: map[string]bool{},
